@@ -14,11 +14,15 @@ func parseUrlPath(pathStr string, m meta.Definition) ([]*Path, error) {
 	p := &Path{Meta: m}
 	path := []*Path{}
 	segments := strings.Split(pathStr, "/")
-	for _, segment := range segments {
+	for i, segment := range segments {
 
 		// a/b/c same as a/b/c/
 		if segment == "" {
-			break
+			if i == len(segments)-1 {
+				break
+			}
+			// "/a" or "a//b": whatever follows must not be dropped without a word
+			return nil, fmt.Errorf("%w. empty segment in path '%s'", fc.BadRequestError, pathStr)
 		}
 
 		var ident string
@@ -70,6 +74,9 @@ func parseUrlPath(pathStr string, m meta.Definition) ([]*Path, error) {
 			list, isList := seg.Meta.(*meta.List)
 			if !isList {
 				return nil, fmt.Errorf("%w. %s is not a list and cannot have a key", fc.BadRequestError, ident)
+			}
+			if len(keyStrs) > len(list.KeyMeta()) {
+				return nil, fmt.Errorf("%w. %d key values for %s which has %d key leaves", fc.BadRequestError, len(keyStrs), ident, len(list.KeyMeta()))
 			}
 			if seg.Key, err = NewValuesByString(list.KeyMeta(), keyStrs...); err != nil {
 				return nil, err
